@@ -129,7 +129,9 @@ PROPS = {
             "one fold step of each accumulator, for all rows and all running values: COUNT +1 exactly for rows whose "
             "expression is bound (and the value joins the DISTINCT set); MIN/MAX take the first value as is and pick(old, "
             "new) afterwards - also when the running extremum is a falsy term - and skip unbound/type-error rows; SUM adds "
-            "numeric(e) and folds the datatype through type_promotion; AVG advances sum and counter together (proved)",
+            "numeric(e) and folds the datatype through type_promotion; AVG advances sum and counter together; for both a "
+            "member that is not a numeric literal sets the error flag (the group's aggregate is then unbound) and changes "
+            "nothing else (proved)",
         ],
         "clauses_not_decided": [
             "ORDER BY (stable multi-key sort with DESC), LIMIT/OFFSET slicing, DISTINCT/REDUCED, projection, grouping "
